@@ -328,3 +328,87 @@ Example signer_example :
           SReq {| q_h := 5; q_r := 0; q_step := 3; q_content := 9; q_ts := 600 |} ]
   = [ OSigned 100; OSigned 100; OErr EConflict; OErr EHeight; ONone; ONone; OErr EConflict; OSigned 400 ].
 Proof. vm_compute. reflexivity. Qed.
+
+(* ---- the third clause: a repeated request is answered with the original signature ---- *)
+Definition resign_inv (p : pv) (last : option released) : Prop :=
+  match last with
+  | None => True
+  | Some a =>
+      l_h (vol p) = rl_h a /\ l_r (vol p) = rl_r a /\ l_step (vol p) = rl_step a /\
+      exists m, l_sb (vol p) = Some m /\ sb_h m = rl_h a /\ sb_r m = rl_r a /\ sb_step m = rl_step a /\
+                sb_content m = rl_content a /\ sb_ts m = rl_ts a
+  end.
+
+Lemma same_request_iff a q :
+  same_request a q = true <-> rl_h a = q_h q /\ rl_r a = q_r q /\ rl_step a = q_step q /\ rl_content a = q_content q.
+Proof.
+  unfold same_request. rewrite !andb_true_iff, !Z.eqb_eq. tauto.
+Qed.
+
+Lemma resign_main ops : forall p last,
+  vol p = dur p -> resign_inv p last -> resign_ok last ops (fst (fst (srun p ops))) = true.
+Proof.
+  induction ops as [|o ops IH]; intros p last Hs Hi; [reflexivity|].
+  cbn [srun]. destruct (sstep p o) as [[p' out] ev] eqn:Est.
+  destruct (srun p' ops) as [[outs evs] pf] eqn:Er. cbn [fst].
+  assert (Houts : outs = fst (fst (srun p' ops))) by (rewrite Er; reflexivity).
+  destruct o as [q|q|]; cbn [sstep] in Est.
+  - (* SReq *)
+    destruct (sign p q) as [p1 r] eqn:Esg. inversion Est; subst p' out ev; clear Est.
+    cbn [resign_ok]. apply andb_true_iff. 
+    pose proof (sign_sync p q Hs) as Hs1. rewrite Esg in Hs1. cbn [fst] in Hs1.
+    unfold sign in Esg.
+    destruct (check_hrs (vol p) (q_h q) (q_r q) (q_step q)) as [e|[|]] eqn:Ech.
+    + (* refused by the HRS check *)
+      inversion Esg; subst p1 r; clear Esg. split.
+      * destruct last as [a|]; [|reflexivity]. destruct (same_request a q) eqn:Esr; [|reflexivity]. exfalso.
+        apply same_request_iff in Esr as (E1 & E2 & E3 & _). destruct Hi as (H1 & H2 & H3 & m & Hm & _).
+        unfold check_hrs in Ech. rewrite H1, H2, H3, E1, E2, E3, Hm in Ech.
+        rewrite !Z.ltb_irrefl, !Z.eqb_refl in Ech. discriminate.
+      * rewrite Houts. apply IH; assumption.
+    + (* same HRS as the stored one *)
+      destruct (check_hrs_same _ _ _ _ Ech) as ((T1 & T2 & T3) & m0 & Hm0).
+      rewrite Hm0 in Esg.
+      assert (Hrep : forall a, last = Some a -> same_request a q = true ->
+                only_differ_by_ts m0 (req_sb q) = true /\ sb_ts m0 = rl_ts a).
+      { intros a -> Esr. apply same_request_iff in Esr as (E1 & E2 & E3 & E4).
+        destruct Hi as (H1 & H2 & H3 & m & Hm & M1 & M2 & M3 & M4 & M5).
+        rewrite Hm0 in Hm. inversion Hm; subst m. split; [|exact M5].
+        unfold only_differ_by_ts, req_sb. cbn. rewrite M1, M2, M3, M4, E1, E2, E3, E4, !Z.eqb_refl. reflexivity. }
+      destruct (signbytes_eqb (req_sb q) m0) eqn:Eeq.
+      * inversion Esg; subst p1 r; clear Esg. split.
+        -- destruct last as [a|]; [|reflexivity]. destruct (same_request a q) eqn:Esr; [|reflexivity].
+           destruct (Hrep a eq_refl Esr) as (_ & Hts). apply Z.eqb_eq. exact Hts.
+        -- rewrite Houts. apply IH; [exact Hs|].
+           unfold signbytes_eqb, req_sb in Eeq. cbn in Eeq. bool_to_prop.
+           cbn. repeat split; try lia. exists m0. repeat split; try assumption; lia.
+      * destruct (only_differ_by_ts m0 (req_sb q)) eqn:Eod.
+        -- inversion Esg; subst p1 r; clear Esg. split.
+           ++ destruct last as [a|]; [|reflexivity]. destruct (same_request a q) eqn:Esr; [|reflexivity].
+              destruct (Hrep a eq_refl Esr) as (_ & Hts). apply Z.eqb_eq. exact Hts.
+           ++ rewrite Houts. apply IH; [exact Hs|].
+              unfold only_differ_by_ts, req_sb in Eod. cbn in Eod. bool_to_prop.
+              cbn. repeat split; try lia. exists m0. repeat split; try assumption; lia.
+        -- inversion Esg; subst p1 r; clear Esg. split.
+           ++ destruct last as [a|]; [|reflexivity]. destruct (same_request a q) eqn:Esr; [|reflexivity].
+              destruct (Hrep a eq_refl Esr) as (Hod & _). congruence.
+           ++ rewrite Houts. apply IH; assumption.
+    + (* strictly newer: a fresh signature *)
+      inversion Esg; subst p1 r; clear Esg. split.
+      * destruct last as [a|]; [|reflexivity]. destruct (same_request a q) eqn:Esr; [|reflexivity]. exfalso.
+        apply same_request_iff in Esr as (E1 & E2 & E3 & _). destruct Hi as (H1 & H2 & H3 & _).
+        pose proof (check_hrs_fresh _ _ _ _ Ech) as T. unfold t_lt in T. lia.
+      * rewrite Houts. apply IH; [reflexivity|].
+        cbn. repeat split. exists (req_sb q). cbn. repeat split.
+  - (* SReqLost *)
+    destruct (sign p q) as [p1 r] eqn:Esg. inversion Est; subst p' out ev; clear Est.
+    cbn [resign_ok]. rewrite Houts. apply IH; [reflexivity|exact I].
+  - (* SReload *)
+    inversion Est; subst p' out ev; clear Est.
+    cbn [resign_ok]. rewrite Houts. rewrite (reload_id p Hs). apply IH; assumption.
+Qed.
+
+Theorem signer_resigns_original : forall ops, P_C20_resign ops (souts ops) = true.
+Proof.
+  intros ops. unfold P_C20_resign, souts. apply resign_main; [reflexivity|exact I].
+Qed.
